@@ -367,3 +367,14 @@ TRUSTED_BASE = [
     "correspondence check: harness/py generators + harness/go/cmd/run + coqc evaluation of the model on the same cases",
     "modelled not verified: Go runtime, bufio.Scanner token limit, strings/strconv/sort library behaviour",
 ]
+
+
+def run_binary(binpath, args, stdin=None, timeout=20, env=None):
+    """Run the gofasta binary.  Returns (class, exit_code, stdout, stderr) with class in ok|err|panic|hang."""
+    try:
+        p = subprocess.run([binpath] + args, input=stdin, stdout=subprocess.PIPE, stderr=subprocess.PIPE, timeout=timeout,
+                           env=env or os.environ)
+    except subprocess.TimeoutExpired as e:
+        return "hang", None, e.stdout or b"", e.stderr or b""
+    cls = "ok" if p.returncode == 0 else ("panic" if p.returncode == 2 and b"goroutine" in p.stderr else "err")
+    return cls, p.returncode, p.stdout, p.stderr
